@@ -1079,12 +1079,32 @@ class Interp:
             if r is not None:
                 return r
         if g.ifs:
+            r = self._filter_comp(n, g, env, view)
+            if r is not None:
+                return r
             self.unsupported(n, 'filtered comprehension over symbolic sequence')
         def getter(i, g=g, n=n, env=env, view=view):
             sub = Env({}, env)
             self.assign(g.target, view.get(i), sub)
             return self.eval(n.elt, sub)
         return FnView(view.length(), getter, tag='map')
+
+    def _filter_comp(self, n, g, env, view):
+        """[i for i, _ in enumerate(S) if cond]  ->  FilterList (filter axiom)"""
+        from .seqalg import FilterList
+        if not (isinstance(g.target, ast.Tuple) and len(g.target.elts) == 2 and isinstance(n.elt, ast.Name)
+                and isinstance(g.target.elts[0], ast.Name) and g.target.elts[0].id == n.elt.id
+                and getattr(view, 'tag', None) == 'enumerate' and len(g.ifs) == 1):
+            return None
+        cond = g.ifs[0]
+        def P(q):
+            sub = Env({}, env)
+            self.assign(g.target, view.get(q), sub)
+            return as_bool(self.truth(self.eval(cond, sub)))
+        fl = FilterList(self, view.length(), P, name='NF')
+        self.last_filter = fl
+        self.e.note('assumed: filter axiom for [i for i, _ in enumerate(s) if P(i)] (cnt/NF, DESIGN.md §1.1; cross-checked natively)')
+        return fl
 
     def _comp_concrete(self, n, env, kind, items0=None):
         out = []
@@ -1458,6 +1478,10 @@ class Interp:
                 except (ValueError, IndexError) as ex:
                     self.raise_(type(ex).__name__, str(ex))
             if name == 'join':
+                if obj == '' and (isinstance(args[0], View) or hasattr(args[0], 'sym_view')):
+                    from .seqalg import SymString
+                    v = self.as_view(args[0])
+                    return SymString(v.length(), v.get, tag='join')
                 return OpaqueStr(['join', obj, args[0]])
             if name == 'format':
                 return OpaqueStr([obj] + list(args))
@@ -1590,6 +1614,10 @@ class Interp:
         def bi_list(i, a, k):
             if not a:
                 return []
+            if i.reg and getattr(i.reg, 'list_hook', None):
+                r = i.reg.list_hook(i, a, k)
+                if r is not None:
+                    return r
             v = a[0]
             if isinstance(v, View) and not isinstance(v.length(), int):
                 return v
